@@ -103,21 +103,6 @@ mod k {
         assert!(w.u_value_gnd_top(u_w) == u_w, "C06.gnd.top.identity");
     }
 
-    // C06/C14: the ground formulas never panic for finite inputs (sound with over-approximated ln)
-    #[kani::proof]
-    fn c06_gnd_panicfree() {
-        let z: f32 = kani::any();
-        let u_w: f32 = kani::any();
-        let d_t: f32 = kani::any();
-        let h: f32 = kani::any();
-        let cd: f32 = kani::any();
-        let psi: f32 = kani::any();
-        kani::assume(z.is_finite() && u_w.is_finite() && d_t.is_finite() && h.is_finite() && cd.is_finite() && psi.is_finite());
-        let w = mk_wall(90.0, BoundaryType::GROUND);
-        let _ = w.u_value_gnd_wall(z, u_w, d_t, h);
-        let _ = w.u_value_gnd_slab(z, d_t, cd, psi);
-    }
-
     // ---- C07: window constructions ------------------------------------------------------------
     #[derive(Clone, Copy, PartialEq)]
     enum Link {
@@ -544,5 +529,68 @@ mod n {
             c.nontrivial(format!("{} {} {:?} {}", gl, fr, user, has_cons));
             c.sample(|| format!("glass#{} frame#{} user {:?} cons {} -> U {:?} g {} / {}", gl, fr, user, has_cons, wcp.u_value, wcp.g_glwi, wcp.g_glshwi));
         });
+    }
+
+    // ---- C06.ground: EN ISO 13370 slab-on-ground and basement-wall values ------------------------------------
+    #[test]
+    fn n_c06_ground() {
+        drive(
+            "C06.ground",
+            "Wall::u_value for elements in contact with the ground: basement 8x5, height 3, floor depth z {0,1.5,3.5}; side walls all in contact with ground / two of four adiabatic (exposed perimeter halved); floor construction R {0.5, 2.5}; perimeter insulation (D,Rn) {(0,0),(1,1.5)}; element = slab / long basement wall",
+            |c| {
+                let depth = c.of(&[0.0f32, 1.5, 3.5]);
+                let half = c.flag();
+                let insulated = c.flag();
+                let (d_ins, rn) = c.of(&[(0.0f32, 0.0f32), (1.0, 1.5)]);
+                c.note(format!("z {} half-exposed {} insulated floor {} D {} Rn {}", depth, half, insulated, d_ins, rn));
+                let mut m = empty_model();
+                m.meta.d_perim_insulation = d_ins;
+                m.meta.rn_perim_insulation = rn;
+                let mut sp = space(0xA0, true, SpaceType::CONDITIONED, 1.0, 3.0);
+                sp.z = -depth;
+                m.spaces.push(sp);
+                m.cons.materials = vec![material(0xE0, 0.5), material_r(0xE2, 2.0)];
+                m.cons.wallcons = vec![wallcons(0xC0, &[(0xE0, 0.25)]), wallcons(0xC1, &[(0xE0, 0.25), (0xE2, 0.05)])];
+                let floor_cons = if insulated { 0xC1 } else { 0xC0 };
+                let r_floor = if insulated { 2.5f64 } else { 0.5 };
+                let r_wall = 0.5f64;
+                m.walls.push(wall(1, BoundaryType::GROUND, uid(0xA0), None, uid(floor_cons), 180.0, 0.0, rect(8.0, 5.0), None));
+                let side = |b: bool| if b { BoundaryType::ADIABATIC } else { BoundaryType::GROUND };
+                m.walls.push(wall(2, BoundaryType::GROUND, uid(0xA0), None, uid(0xC0), 90.0, 0.0, rect(8.0, 3.0), None));
+                m.walls.push(wall(3, BoundaryType::GROUND, uid(0xA0), None, uid(0xC0), 90.0, 90.0, rect(5.0, 3.0), None));
+                m.walls.push(wall(4, side(half), uid(0xA0), None, uid(0xC0), 90.0, 180.0, rect(8.0, 3.0), None));
+                m.walls.push(wall(5, side(half), uid(0xA0), None, uid(0xC0), 90.0, -90.0, rect(5.0, 3.0), None));
+                let (lam, lam_ins, pi) = (2.0f64, 0.035f64, std::f64::consts::PI);
+                let z = depth as f64;
+                let d_t = 0.3 + lam * (0.17 + r_floor + 0.04);
+                let p_exposed = round2(26.0 * if half { 0.5 } else { 1.0 });
+                let b1 = round2(40.0 / (0.5 * p_exposed));
+                // slab (9.3.2) + edge insulation (B.4)
+                let bl = d_t + 0.5 * z;
+                let u_bf = if bl < b1 { 2.0 * lam / (pi * b1 + bl) * (pi * b1 / bl + 1.0).ln() } else { lam / (0.457 * b1 + bl) };
+                let d1 = rn as f64 * (lam - lam_ins);
+                let psi = ((-lam / pi * ((d_ins as f64 / d_t + 1.0).ln() - (d_ins as f64 / (d_t + d1) + 1.0).ln())) * 1000.0).round() / 1000.0;
+                let u_slab = u_bf + 2.0 * psi / b1;
+                let got_slab = m.walls[0].u_value(&m);
+                c.check("C06.ground.slab", matches!(got_slab, Some(u) if (u as f64 - u_slab).abs() <= 0.0101), || format!("slab U = {:?} want {} (B' {} d_t {} z {} psi {})", got_slab, u_slab, b1, d_t, z, psi));
+                // basement wall (9.3.3), height-weighted with the part above ground
+                let u_w = round2(1.0 / (r_wall + 0.13 + 0.04));
+                let u_wall = if z < 0.01 {
+                    u_w
+                } else {
+                    let d_w = lam / u_w;
+                    let dt = d_w.min(d_t);
+                    let u_bw = round2(2.0 * lam / (pi * z) * (1.0 + 0.5 * dt / (dt + z)) * (z / d_w + 1.0).ln());
+                    let h = (3.0 - z).max(0.0);
+                    if h == 0.0 { u_bw } else { (z * u_bw + h * u_w) / 3.0 }
+                };
+                let got_wall = m.walls[1].u_value(&m);
+                c.check("C06.ground.wall", matches!(got_wall, Some(u) if (u as f64 - u_wall).abs() <= 0.0101), || format!("basement wall U = {:?} want {} (z {} U_w {} d_t {})", got_wall, u_wall, z, u_w, d_t));
+                // deeper / better insulated never loses more
+                c.check("C06.ground.below_air_value", matches!(got_wall, Some(u) if (u as f64) <= u_w + 0.0051), || format!("buried wall U {:?} above the same wall in air {}", got_wall, u_w));
+                c.nontrivial(format!("{} {} {} {} {}", depth, half, insulated, d_ins, rn));
+                c.sample(|| format!("z {} half {} Rf {} D {} Rn {} -> slab {:?} wall {:?}", depth, half, r_floor, d_ins, rn, got_slab, got_wall));
+            },
+        );
     }
 }
